@@ -24,6 +24,7 @@ def check(ctx):
         # a trace is whole only if every queue is drained to empty in the cycle that sees the commit, and a span set
         # shared with other traces reaches every one of them
         collector.rule_drain_keeps_live(ctx, c, "R6")
+        collector.rule_registry_in_place(ctx, c, "R6")
         spanrules.rule_fanout(ctx, c, "R7")
     spanrules.rule_drop_order(ctx, facts, "R3")
     from .. import spsc
@@ -34,6 +35,8 @@ def check(ctx):
     from .. import provrules
     provrules.rule_config(ctx, facts, "R8")
     provrules.rule_not_sampled_sentinel(ctx, facts, "R10")
+    # "local spans whose scope ended before it": a scope over a span with parents in a sampled and an unsampled trace records
+    provrules.rule_scope_sampling(ctx, facts, "R11")
     # R5
     n = 0
     for f in facts.fns.values():
